@@ -99,8 +99,8 @@ type c14Sess struct {
 	// consumed, so that a client can replay a response to a consumed challenge
 	cur, prev         *ntlmc.Challenge
 	lastCur, lastPrev *ntlmc.Challenge
-	fresh     bool // the last operation on this session was the negotiate that issued cur
-	aged      bool // clock advanced past the context lifetime since cur was issued
+	fresh             bool // the last operation on this session was the negotiate that issued cur
+	aged              bool // clock advanced past the context lifetime since cur was issued
 }
 
 // c14Run executes a history on a fresh verifier and judges every step.
